@@ -497,7 +497,8 @@ def one_program(rnd, maxbits=14, name="prog", argnames="abc", argt=ARGT, nstmts=
         nm = argnames[k]
         if k not in pidx:
             tot += bits(t)
-        g.env[nm] = {"t": t, "loc": False}
+        # a scalar compile-time parameter may be re-assigned like any local (under a condition too)
+        g.env[nm] = {"t": t, "loc": bool(k in pidx and t[0] in ("bool", "int"))}
         sig.append((nm, t, k in pidx))
         args.append("%s: %s" % (nm, ("Parameter[%s]" % ann(t)) if k in pidx else ann(t)))
     body = []
